@@ -14,7 +14,7 @@
 (* st.prenamed _prefix_renamed_map: requested prefix -> namespace used     *)
 (* st.dflt     _default: NONE, or the default namespace URI (set *or*      *)
 (*             adopted from the first default-namespace QualifiedName;     *)
-(*             only `set' also writes tbl[""])                             *)
+(*             both also write tbl[""])                                    *)
 (* st.parent   id of the parent manager, "" when there is none             *)
 (***************************************************************************)
 EXTENDS Values
@@ -76,7 +76,8 @@ SetDefaultF(st, u) == [SetTbl(st, "", u) EXCEPT !.dflt = u]
 ResolveQNF(st, anc, p, ns, l) ==
   IF p = "" THEN
        IF st.dflt = ns THEN [q |-> QN("", ns, l), st |-> st]
-       ELSE IF st.dflt = NONE THEN [q |-> QN("", ns, l), st |-> [st EXCEPT !.dflt = ns]]
+       \* adopted: registered like a default namespace that was set (it takes part in URI compaction)
+       ELSE IF st.dflt = NONE THEN [q |-> QN("", ns, l), st |-> [SetTbl(st, "", ns) EXCEPT !.dflt = ns]]
        ELSE LET r == AddNsF(st, anc, "dn", ns) IN [q |-> QN(r.ns[1], r.ns[2], l), st |-> r.st]
   ELSE IF InTbl(st, p) /\ st.tbl[p] = ns THEN [q |-> QN(p, ns, l), st |-> st]
   ELSE LET r == AddNsF(st, anc, p, ns) IN [q |-> QN(r.ns[1], r.ns[2], l), st |-> r.st]
